@@ -121,6 +121,25 @@ static void blake_outlen(long OL)
         }
     }
 }
+/* zero-length input passed as NULL (allowed: the input pointers are not declared nonnull) equals the empty-message value */
+static void null_inputs(void)
+{
+    unsigned char key[64], o1[64], o2[64];
+    vf_pat(key, 64, PAT_R1, 67);
+    crypto_hash_sha256(o1, NULL, 0); ref_sha256(o2, NULL, 0); CMP("sha256/NULL/%d%s", o1, o2, 32, 0, "");
+    crypto_hash_sha512(o1, NULL, 0); ref_sha512(o2, NULL, 0); CMP("sha512/NULL/%d%s", o1, o2, 64, 0, "");
+    crypto_auth(o1, NULL, 0, key); ref_hmac_sha512256(o2, key, 32, NULL, 0); CMP("crypto_auth/NULL/%d%s", o1, o2, 32, 0, "");
+    crypto_auth_hmacsha256(o1, NULL, 0, key); ref_hmac_sha256(o2, key, 32, NULL, 0); CMP("hmacsha256/NULL/%d%s", o1, o2, 32, 0, "");
+    crypto_auth_hmacsha512(o1, NULL, 0, key); ref_hmac_sha512(o2, key, 32, NULL, 0); CMP("hmacsha512/NULL/%d%s", o1, o2, 64, 0, "");
+    crypto_generichash(o1, 32, NULL, 0, NULL, 0); ref_blake2b(o2, 32, NULL, 0, NULL, 0, NULL, NULL); CMP("generichash/NULL/%d%s", o1, o2, 32, 0, "");
+    crypto_generichash(o1, 32, NULL, 0, key, 32); ref_blake2b(o2, 32, NULL, 0, key, 32, NULL, NULL); CMP("generichash-keyed/NULL/%d%s", o1, o2, 32, 0, "");
+    crypto_shorthash(o1, NULL, 0, key); ref_siphash24(o2, NULL, 0, key); CMP("shorthash/NULL/%d%s", o1, o2, 8, 0, "");
+    crypto_onetimeauth(o1, NULL, 0, key); ref_poly1305(o2, NULL, 0, key); CMP("onetimeauth/NULL/%d%s", o1, o2, 16, 0, "");
+    crypto_kdf_hkdf_sha256_extract(o1, NULL, 0, key, 0); ref_hkdf_sha256_extract(o2, NULL, 0, key, 0); CMP("hkdf_sha256_extract/NULL-salt-empty-ikm/%d%s", o1, o2, 32, 0, "");
+    crypto_kdf_hkdf_sha256_expand(o1, 32, NULL, 0, key); ref_hkdf_sha256_expand(o2, 32, NULL, 0, key); CMP("hkdf_sha256_expand/NULL-ctx/%d%s", o1, o2, 32, 0, "");
+    crypto_kdf_hkdf_sha512_expand(o1, 64, NULL, 0, key); ref_hkdf_sha512_expand(o2, 64, NULL, 0, key); CMP("hkdf_sha512_expand/NULL-ctx/%d%s", o1, o2, 64, 0, "");
+}
+
 static void refusals(void)
 {
     unsigned char o[80], key[80], m[8] = { 0 }; crypto_generichash_state st; char ctx[8] = "verifctx"; int r;
@@ -397,7 +416,7 @@ int main(void)
     vf_parallel(16, 0, 23, kdf_all, fin);
     vf_parallel(14, 0, 14, poly_crafted, fin);
     vf_parallel(16, 0, napis, graph_api, fin);
-    refusals(); fin();
+    refusals(); null_inputs(); fin();
     vf_sample("sha512 chunk graph: message of 393 bytes, node t = canonical state after M[0:t], edge = update(M[t:u]) for every t<u, final() checked at every node");
     vf_sample("onetimeauth crafted: r=1 s=0 msg = ff*16 || ff*16 || ff*10 (accumulator sums of 2^128-1 blocks, partial final block)");
     vf_sample("hkdf_sha256_expand out_len=8160 (255 blocks, accepted) and 8161 (refused)");
